@@ -262,15 +262,51 @@ def loguniform(rng, lo, hi):
 
 def bounded_while(budget=4000):
     """A jit-compatible while_loop with a logical iteration budget (a diverging adaptive run must not hang a check).
-    Callers detect an exhausted budget by the final time not being reached."""
+    When the budget is exhausted while the loop condition still holds, every floating-point leaf of the result is
+    poisoned with NaN, so callers detect it by the final time not being reached (``adaptive_reached_end``)."""
     import jax
     import jax.numpy as jnp
 
     def loop(cond, body, init):
-        out, _ = jax.lax.while_loop(lambda s: jnp.logical_and(cond(s[0]), s[1] < budget), lambda s: (body(s[0]), s[1] + 1), (init, 0))
-        return out
+        out, n = jax.lax.while_loop(lambda s: jnp.logical_and(cond(s[0]), s[1] < budget), lambda s: (body(s[0]), s[1] + 1), (init, 0))
+        hit = jnp.logical_and(n >= budget, cond(out))
+
+        def poison(x):
+            x = jnp.asarray(x)
+            return jnp.where(hit, jnp.nan, x) if jnp.issubdtype(x.dtype, jnp.floating) else x
+
+        return jax.tree.map(poison, out)
 
     return loop
+
+
+def save_every_step(solver, error, *, clip_dt, inner_budget=300, max_steps=5000):
+    """The repository's save-every-step routine (probdiffeq.util.test_util) rebuilt from the same public pieces
+    (RejectionLoop, control_integral) with *bounded* loops: returns solve(prior, t0, t1, atol, rtol, dt0) -> solution
+    or None when a budget is exhausted (inconclusive, never a verdict)."""
+    import jax
+    import jax.numpy as jnp
+    from probdiffeq import ivpsolve
+    from probdiffeq.backend import tree
+
+    loop = ivpsolve.RejectionLoop(solver=solver, clip_dt=clip_dt, control=ivpsolve.control_integral(), error=error,
+                                  while_loop=bounded_while(inner_budget))
+    apply = jax.jit(loop.loop)
+
+    def solve(prior, t0, t1, *, atol, rtol, dt0, eps=1e-8, damp=0.0):
+        t0_, t1_ = jnp.asarray(t0), jnp.asarray(t1)
+        sol0 = jax.jit(solver.init)(t=t0_, u=prior, damp=damp)
+        state = jax.jit(loop.init)(sol0, dt=dt0)
+        sols = []
+        while float(state.step_from.t) < float(t1_):
+            solution, state = apply(state, t1=t1_, eps=eps, atol=atol, rtol=rtol, damp=damp)
+            sols.append(solution)
+            if len(sols) > max_steps or not np.isfinite(float(state.step_from.t)):
+                return None
+        stacked = tree.tree_array_stack(sols)
+        return jax.jit(solver.userfriendly_output)(solution0=sol0, solution=stacked, solution1=state.step_from)
+
+    return solve
 
 
 def adaptive_reached_end(sol, t_end, eps=1e-6):
